@@ -168,9 +168,55 @@ Proof.
   - destruct ep as [l|]; [|exact I]. apply same_set_spec in H8. tauto.
 Qed.
 
-Lemma precomputed_ok_sound np iter : precomputed_ok np iter = true ->
+Lemma views_ok_complete len iter nth choose cf cfpred opsl ep :
+  len = List.length iter /\ NoDup iter /\
+  (forall k, (k < List.length nth)%nat -> nth_error nth k = Some (nth_error iter k)) /\
+  List.length choose = len /\ (forall o, In o choose -> exists x, o = Some x /\ In x iter) /\
+  match cf with
+  | Some x => In x iter /\ cfpred x = true
+  | None => forall x, In x iter -> cfpred x = false
+  end /\
+  (forall ops out, In (ops, out) opsl -> out = list_run ops iter) /\
+  match ep with
+  | Some l => NoDup l /\ (forall x, In x l <-> In x iter)
+  | None => True
+  end ->
+  views_ok len iter nth choose cf cfpred opsl ep = true.
+Proof.
+  intros (H1 & H2 & H3 & H4 & H5 & H6 & H7 & H8).
+  unfold views_ok. rewrite !andb_true_iff, !Nat.eqb_eq, nodupb_spec, olist_eqb_spec, !forallb_forall.
+  split; [split; [split; [split; [split; [split; [split|]|]|]|]|]|]; try assumption.
+  - apply nth_ext with (d := None) (d' := None); [now rewrite map_length, seq_length|].
+    intros k Hk. assert (E : nth_error (map (nth_error iter) (seq 0 (List.length nth))) k = Some (nth_error iter k)).
+    { rewrite nth_error_map, nth_error_nth' with (d := 0%nat) by (rewrite seq_length; exact Hk). now rewrite seq_nth by exact Hk. }
+    rewrite (nth_error_nth _ _ None (H3 k Hk)), (nth_error_nth _ _ None E). reflexivity.
+  - intros o Ho. destruct (H5 o Ho) as (x & -> & Hx). now apply mem_In.
+  - destruct cf as [x|].
+    + apply andb_true_iff. split; [now apply mem_In|tauto].
+    + apply forallb_forall. intros x Hx. apply negb_true_iff. now apply H6.
+  - intros [ops out] Hin. cbn [fst snd]. apply olist_eqb_spec. now apply H7.
+  - destruct ep as [l|]; [|reflexivity]. apply same_set_spec. tauto.
+Qed.
+
+Lemma views_ok_spec len iter nth choose cf cfpred opsl ep :
+  views_ok len iter nth choose cf cfpred opsl ep = true <->
+  len = List.length iter /\ NoDup iter /\
+  (forall k, (k < List.length nth)%nat -> nth_error nth k = Some (nth_error iter k)) /\
+  List.length choose = len /\ (forall o, In o choose -> exists x, o = Some x /\ In x iter) /\
+  match cf with
+  | Some x => In x iter /\ cfpred x = true
+  | None => forall x, In x iter -> cfpred x = false
+  end /\
+  (forall ops out, In (ops, out) opsl -> out = list_run ops iter) /\
+  match ep with
+  | Some l => NoDup l /\ (forall x, In x l <-> In x iter)
+  | None => True
+  end.
+Proof. split; [apply views_ok_sound|apply views_ok_complete]. Qed.
+
+Lemma precomputed_ok_sound np iter : precomputed_ok np iter = true <->
   NoDup np /\ NoDup iter /\ (forall x, In x np <-> In x iter).
-Proof. exact (proj1 (same_set_spec np iter)). Qed.
+Proof. exact (same_set_spec np iter). Qed.
 
 Section Topo.
   Variables (dcf rackf : N -> option N).
